@@ -635,6 +635,9 @@ def parse_units(s) :
     for b in blocks :
         if b[2] == "" :
             b[2] = "1"
+        digits = b[2][1:] if b[2].startswith("-") else b[2]
+        if not (digits.isascii() and digits.isdigit()) :
+            raise ValueError("invalid unit exponent \""+b[2]+"\".")
         b[2] = int(b[2])
         if b[0] == "/" :
             b[2] = -b[2]
@@ -1304,6 +1307,8 @@ def parse_unitvalue(s="") :
         value = 0
         units = parse_units("")
     else :
+        if len(tok) > 2 :
+            raise ValueError("a quantity must be written as a value followed by a single unit expression.")
         value = float(tok[0])
         us = ""
         for i in range(1, len(tok)):
